@@ -1,1 +1,82 @@
+"""K6 header functions: _split_msh, get_message_type, get_message_info (C07, C15)"""
 from contracts import contract
+
+# spec helpers: F = field separator = content[3]; line = first_line(content); fields = split(line, F)
+_IS_HL7 = 'strlen(content) >= 4 and substr(content, 0, 3) == "MSH" and not is_space(char_at(content, 3))'
+_F = 'char_at(content, 3)'
+_LINE = 'first_line(content)'
+_SEPS = 'split_item(first_line(content), char_at(content, 3), 1)'
+_NF = 'split_len(first_line(content), char_at(content, 3))'
+
+contract(
+    'hl7apy.parser:_split_msh',
+    sig={'content': 'str'},
+    returns='tuple[list[str],dict[str]]',
+    requires=[],
+    ensures=[
+        ('is_hl7', _IS_HL7),
+        ('fields', 'len(result[0]) == %s and all(result[0][i] == split_item(%s, %s, i) for i in range(len(result[0])))'
+         % (_NF, _LINE, _F)),
+        ('field', 'dhas(result[1], "FIELD") and dget(result[1], "FIELD") == %s' % _F),
+        ('component', 'dhas(result[1], "COMPONENT") and dget(result[1], "COMPONENT") == char_at(%s, 0)' % _SEPS),
+        ('repetition', 'dhas(result[1], "REPETITION") and dget(result[1], "REPETITION") == char_at(%s, 1)' % _SEPS),
+        ('escape', 'dhas(result[1], "ESCAPE") and dget(result[1], "ESCAPE") == char_at(%s, 2)' % _SEPS),
+        ('subcomponent', 'dhas(result[1], "SUBCOMPONENT") and dget(result[1], "SUBCOMPONENT") == char_at(%s, 3)' % _SEPS),
+        ('segment_group', 'dget(result[1], "SEGMENT") == "\\r" and dget(result[1], "GROUP") == "\\r" and '
+                          'dhas(result[1], "SEGMENT") and dhas(result[1], "GROUP")'),
+        ('truncation', 'dhas(result[1], "TRUNCATION") == (strlen(%s) == 5) and '
+                       'implies(strlen(%s) == 5, dget(result[1], "TRUNCATION") == char_at(%s, 4))' % (_SEPS, _SEPS, _SEPS)),
+        ('seps_len', 'strlen(%s) == 4 or (strlen(%s) == 5 and %s >= 12 and split_item(%s, %s, 11) >= "2.7")'
+         % (_SEPS, _SEPS, _NF, _LINE, _F)),
+        ('distinct', 'all_distinct_chars(%s)' % _SEPS),
+        ('at_least_two_fields', '%s >= 2' % _NF),
+    ],
+    raises={
+        'ParserError': {'when': 'not (%s)' % _IS_HL7, 'must': 'not (%s)' % _IS_HL7},
+        'InvalidEncodingChars': {'when': _IS_HL7},
+    },
+    raises_only=['ParserError', 'InvalidEncodingChars'],
+    modifies=[],
+    properties=['C07', 'C15'],
+)
+
+contract(
+    'hl7apy.parser:get_message_type',
+    sig={'content': 'str'},
+    returns='str?',
+    ensures=[
+        ('msh9', 'implies(%s >= 9, result == strip(split_item(%s, %s, 8)))' % (_NF, _LINE, _F)),
+        ('absent', 'implies(%s < 9, result is None)' % _NF),
+    ],
+    raises={'ParserError': {'when': 'not (%s)' % _IS_HL7, 'must': 'not (%s)' % _IS_HL7},
+            'InvalidEncodingChars': {'when': _IS_HL7}},
+    raises_only=['ParserError', 'InvalidEncodingChars'],
+    modifies=[],
+    properties=['C15', 'C16'],
+)
+
+_M9 = 'strip(split_item(%s, %s, 8))' % (_LINE, _F)
+_CMP = 'char_at(%s, 0)' % _SEPS
+_M12 = 'strip(split_item(%s, %s, 11))' % (_LINE, _F)
+contract(
+    'hl7apy.parser:get_message_info',
+    sig={'content': 'str'},
+    returns='tuple[dict[str],str?,str?]',
+    ensures=[
+        ('ec_field', 'dget(result[0], "FIELD") == %s' % _F),
+        ('ec_component', 'dget(result[0], "COMPONENT") == %s' % _CMP),
+        ('structure3', 'implies(%s >= 9 and split_len(%s, %s) >= 3, result[1] == split_item(%s, %s, 2))'
+         % (_NF, _M9, _CMP, _M9, _CMP)),
+        ('structure2', 'implies(%s >= 9 and split_len(%s, %s) == 2, '
+                       'result[1] == fmt("{0}_{1}", split_item(%s, %s, 0), split_item(%s, %s, 1)))'
+         % (_NF, _M9, _CMP, _M9, _CMP, _M9, _CMP)),
+        ('structure_none', 'implies(%s < 9 or split_len(%s, %s) < 2, result[1] is None)' % (_NF, _M9, _CMP)),
+        ('version', 'implies(%s >= 12, result[2] == split_item(%s, %s, 0))' % (_NF, _M12, _CMP)),
+        ('version_none', 'implies(%s < 12, result[2] is None)' % _NF),
+    ],
+    raises={'ParserError': {'when': 'not (%s)' % _IS_HL7, 'must': 'not (%s)' % _IS_HL7},
+            'InvalidEncodingChars': {'when': _IS_HL7}},
+    raises_only=['ParserError', 'InvalidEncodingChars'],
+    modifies=[],
+    properties=['C15', 'C07'],
+)
